@@ -37,7 +37,7 @@ void *arrayadd(struct array *, size_t);
 void arrayaddptr(struct array *, void *);
 void arrayaddbuf(struct array *, const void *, size_t);
 void *arraylast(struct array *, size_t);
-#define arrayforeach(a, m) for (m = (a)->val; m != (void *)((char *)(a)->val + (a)->len); ++m)
+#define arrayforeach(a, m) for (m = (a)->val; (a)->len && m != (void *)((char *)(a)->val + (a)->len); ++m)
 
 /* map */
 
